@@ -323,7 +323,7 @@ def run(P, R, tier):
         mut = E.mutated_params(m)
         R.check(not mut, 'C15.a', m, None, f'{m.qualname} stores into neither the array nor an argument', f'{m.qualname} stores into {sorted(mut)}: oriented() modifies the input array',
                 construct=f'{m.qualname} effects')
-    n = common.fresh_arguments(P, R, 'C15.a', callee_filter=lambda g: g is op, floor=2)
+    n = common.fresh_arguments(P, R, 'C15.a', callee_filter=lambda g: g is op, floor=1)
     # C15.g: the result is a freshly built array: nothing derived from the input (spatial index, memoised measures, ...) is stored onto it.
     # Signed areas and ring order differ between input and result, so any carried-over state describes the wrong rings.
     for m in meths:
@@ -351,10 +351,21 @@ def run(P, R, tier):
         geom.flush(R, 'C15.c', I, seen, f'{cls}.oriented')
         evs = I.events[ev0:]
         fa = [e for e in evs if e[0] == 'from_arrays']
-        R.check(len(fa) == L, 'C15.b', site, None, f'{cls}.oriented rebuilds all {L} list levels', f'{cls}.oriented rebuilds {len(fa)} list level(s), the array has {L}', construct='levels rebuilt')
+        typed = all(isinstance(e_[3][0], Off) for e_ in fa)
+        if typed or len(fa) < L:
+            R.check(len(fa) == L, 'C15.b', site, None, f'{cls}.oriented rebuilds all {L} list levels', f'{cls}.oriented rebuilds {len(fa)} list level(s), the array has {L}', construct='levels rebuilt')
+        else:
+            R.abstain('C15.b', site, None, f'{cls}.oriented rebuilds its levels through a helper whose offsets the units analysis cannot type; level count not decided', construct='levels rebuilt')
         own = geom.get(I, a, 'buffer_offsets', f'{cls}.buffer_offsets')
         for k, (_, f, node, (offs, vals, mask)) in enumerate(fa):
             want_level = L - 1 - k
+            if not isinstance(offs, Off):
+                if k == len(fa) - 1:
+                    R.check(mask is not None, 'C15.b', f, node, 'the outermost level carries the validity mask (missing stays missing)',
+                            'the outermost level is rebuilt without the validity mask: missing polygons become empty ones')
+                else:
+                    R.abstain('C15.b', f, node, f'offsets of a rebuilt level could not be typed ({offs!r:.40}); level not decided')
+                continue
             ok = isinstance(offs, Off) and offs.level == want_level and not getattr(offs, 'modified', False) and not getattr(offs, 'rebased', False) \
                 and not getattr(offs, 'gathered', False) and offs.role is None
             if ok and isinstance(own, Tup):
@@ -378,6 +389,9 @@ def run(P, R, tier):
             ok = len(args) == 3 and isinstance(args[0], Vals) and args[0].fresh and isinstance(args[1], Off) and isinstance(args[2], Off) \
                 and args[1].level == L - 2 and args[2].level == L - 1 and not getattr(args[1], 'cut', None) is None or \
                 (len(args) == 3 and isinstance(args[1], Off) and isinstance(args[2], Off) and args[1].level == L - 2 and args[2].level == L - 1)
+            if not ok and len(args) == 3 and not (isinstance(args[1], Off) and isinstance(args[2], Off)):
+                R.abstain('C15.c', f, node, 'the offsets handed to the kernel could not be typed (built through a generic helper); levels not decided')
+                continue
             R.check(ok, 'C15.c', f, node, f'the kernel receives (copy, polygon offsets = level {L - 2}, ring offsets = level {L - 1})',
                     f'the kernel receives {[repr(a)[:40] for a in args]}: polygon/ring offsets are not levels ({L - 2}, {L - 1})')
             if len(args) == 3 and isinstance(args[1], Off):
